@@ -2,7 +2,7 @@
 import itertools
 
 from mc import terms as T
-from mc.alphabet import f_struct, f_type_two_level, f_type_flat
+from mc.alphabet import f_struct, f_type_two_level, f_type_flat, f_deep
 
 L = T.leaf
 
@@ -73,6 +73,16 @@ def docs_type2():
     if "t2" not in _cache:
         _cache["t2"] = f_type_two_level() + f_type_flat()
     return _cache["t2"]
+
+
+def docs_deep():
+    if "deep" not in _cache:
+        _cache["deep"] = f_deep()
+    return _cache["deep"]
+
+
+# a 7-part sub-alphabet for length-3 paths: one of each part kind plus one conditioned part per kind
+PARTS7 = [PRIMS[0], PRIMS[3]] + BARE + [MAPS[4], LISTS[6]]
 
 
 def chunks(n, size):
